@@ -8,6 +8,7 @@ mod checks_pure;
 mod checks_s;
 mod checks_t;
 mod checks_w;
+mod conform;
 mod explore;
 mod forgery;
 mod report;
@@ -43,6 +44,8 @@ fn main() {
     }
     let code = match cmd.as_str() {
         "smoke" => smoke(),
+        "selftest" => sched::selftest(),
+        "conform" => conform::main_cmd(),
         "psmoke" => psmoke(),
         "C01" => checks_t::c01(a.tier),
         "C02" => checks_t::c02(a.tier),
